@@ -53,7 +53,9 @@ Record cfg := {
   c_checked : bool;          (* LimitReader uses saturating/checked adds, skip rejects > i64  F2  *)
   c_trunc : bool;            (* fields must end inside the enclosing message / the stream     F38b *)
   c_prealloc : option N;     (* read_bytes pre-allocates min(len, MAX_PREALLOC) (was len)     F38a *)
-  c_depth : option N         (* nesting limit MAX_DEPTH (was none)                            F38c *)
+  c_depth : option N;        (* nesting limit MAX_DEPTH (was none)                            F38c *)
+  c_lenmm : bool             (* packed fixed-width field with a partial last element is
+                                FieldLengthMismatch (was: silently ends)                      F38d *)
 }.
 
 Record env := { e_debug : bool; e_mem : N; e_stack : N }.
@@ -277,7 +279,10 @@ Fixpoint rep_fixed_loop (c : cfg) (debug : bool) (inp : list N) (fuel : nat) (n 
   | O => OutOfFuel
   | S f =>
     match lr_read_fixed c debug inp l pos n with
-    | Err EEof => Ok pos
+    | Err EEof =>
+        (* `*consumed = true; if !reader.at_end() { FieldLengthMismatch }` *)
+        if c_lenmm c && (match l with Some e => pos <? e | None => false end) then Err ELenMismatch
+        else Ok pos
     | Err e => Err e
     | Panic => Panic
     | Abort => Abort
@@ -379,11 +384,13 @@ Definition opt_of (x : N) : option N := if x =? 0 then None else Some x.
 
 Definition pinned_cfg : cfg :=
   {| c_max := MAX_VARINT_LEN; c_ge := VARINT_EXIT_GE; c_checked := LIMIT_CHECKED;
-     c_trunc := LIMIT_OPTIONAL_END; c_prealloc := opt_of MAX_PREALLOC; c_depth := opt_of MAX_DEPTH |}.
+     c_trunc := LIMIT_OPTIONAL_END; c_prealloc := opt_of MAX_PREALLOC; c_depth := opt_of MAX_DEPTH;
+     c_lenmm := PACKED_LEN_MISMATCH |}.
 
-(* the code before the five fix commits *)
+(* the code before the six fix commits *)
 Definition orig_cfg : cfg :=
-  {| c_max := 10; c_ge := false; c_checked := false; c_trunc := false; c_prealloc := None; c_depth := None |}.
+  {| c_max := 10; c_ge := false; c_checked := false; c_trunc := false; c_prealloc := None; c_depth := None;
+     c_lenmm := false |}.
 
 (* ------------------------------------------------------------------ observations *)
 Inductive outcome :=
@@ -429,7 +436,7 @@ Definition harness_env (debug : bool) : env := {| e_debug := debug; e_mem := 171
    whether some length-delimited field met on the way extends beyond the input. *)
 Definition lenient_cfg (c : cfg) : cfg :=
   {| c_max := c_max c; c_ge := true; c_checked := true; c_trunc := false;
-     c_prealloc := Some 1; c_depth := c_depth c |}.
+     c_prealloc := Some 1; c_depth := c_depth c; c_lenmm := false |}.
 Definition oversize (inp : list N) (tr : list (N * N)) : bool :=
   existsb (fun x => blen inp <? fst x + snd x) tr.
 Definition meets_oversize_field (c : cfg) (m : N) (inp : list N) : bool :=
